@@ -334,6 +334,11 @@ func (self Value) getByPath(pathes ...Path) (Value, []int) {
 					return errValue(meta.ErrRead, "GetByPath: read field length failed.", err), address
 				}
 				messageLen += Len
+				if Len < 0 || p.Read+Len > len(p.Buf) {
+					return errValue(meta.ErrRead, "GetByPath: invalid message length.", nil), address
+				}
+				// bound the search by the end of this message: a trailing repeated/map field must not run into the parent's next field
+				p.Buf = p.Buf[:p.Read+Len]
 			}
 
 			fd := desc.Message().ByNumber(id)
@@ -358,6 +363,11 @@ func (self Value) getByPath(pathes ...Path) (Value, []int) {
 					return errValue(meta.ErrRead, "GetByPath: read field length failed.", err), address
 				}
 				messageLen += Len
+				if Len < 0 || p.Read+Len > len(p.Buf) {
+					return errValue(meta.ErrRead, "GetByPath: invalid message length.", nil), address
+				}
+				// bound the search by the end of this message: a trailing repeated/map field must not run into the parent's next field
+				p.Buf = p.Buf[:p.Read+Len]
 			}
 
 			fd := desc.Message().ByName(name)
